@@ -140,7 +140,9 @@ def findEntry (s : St) (id : Nat) : Option SEntry := s.inflight.find? (·.id == 
 
 def removeTimer (s : St) (key : Nat) : St :=
   match s.timers.remove key with
-  | some (q, _) => { s with timers := q }
+  | some (q, woke) =>
+      let s := { s with timers := q }
+      if woke then wakeServer s else s
   | none => emit { s with poisoned := true } (.panic (tid s) "deadlines.remove: invalid key")
 
 /-- `remove_request`: forget without aborting (a response is being sent, or the guard cancelled). -/
@@ -175,13 +177,18 @@ def pollExpired (s : St) (now : Nat) : St × ExpRes :=
     | (q, .none) => ({ s with timers := q }, .closed)
     | (q, .pending) => ({ s with timers := q }, .pending)
 
+/-- The timeout a deadline timer is armed with (`Gen.serverTimerClampSecs`; 0 = not clamped). -/
+def clampTimeout (t : Nat) : Nat :=
+  if Gen.serverTimerClampSecs == 0 then t else min t (Gen.serverTimerClampSecs * 1000000000)
+
 /-- `start_request`; `none` = duplicate id (ignored). -/
 def startRequest (s : St) (now : Nat) (id deadline : Nat) (trace : Trace) (body : Nat) : St × Option Exec :=
   if (findEntry s id).isSome then (s, none)
   else
-    match s.timers.insert now (deadline - now) id with
+    match s.timers.insert now (clampTimeout (deadline - now)) id with
     | (_, .panic, _) => (emit { s with poisoned := true } (.panic (tid s) "DelayQueue::insert: invalid deadline"), none)
-    | (q, .ok key, _) =>
+    | (q, .ok key, woke) =>
+        let s := if woke then wakeServer s else s
         let rid := s.execs.length
         let tr : Trace := { trace with span := .fresh s.nextFresh }
         let e : Exec := { rid := rid, id := id, deadline := deadline, trace := tr, body := body, guardArmed := false }
@@ -533,8 +540,11 @@ def dropServer (s : St) : St :=
 /-- One poll of the request stream by the application, which — like `Requests::execute` — stops at
 the first error item or at the end of the stream and then drops the stream. -/
 def pollServer (s : St) (now : Nat) : St :=
-  let s := pollServerKeep s now
-  if s.done.isSome && !s.dropped then dropServer s else s
+  let s' := pollServerKeep s now
+  if s'.done.isSome && !s'.dropped then dropServer s'
+  -- a stream that yielded an item has not parked: its consumer polls it again
+  else if s'.nextVis > s.nextVis && !s'.dropped then { s' with woken := true }
+  else s'
 
 def liftT (s : St) (r : SimT × Bool) : St :=
   let s := { s with t := r.1 }
